@@ -12,13 +12,17 @@ mod verif_barrier {
     static mut SEEN_UNCHANGED_AT_FIRST_SWITCH: bool = false;
 
     fn mk(arrived: bool) -> Barrier {
+        mk_n(arrived, 2)
+    }
+
+    fn mk_n(arrived: bool, bound: usize) -> Barrier {
         let mut waiters = HashSet::with_hasher(fixed_random_state());
         if arrived {
             waiters.insert(TaskId::from(1));
         }
         Barrier {
             state: Rc::new(RefCell::new(BarrierState {
-                bound: 2,
+                bound,
                 epoch: 0,
                 waiters,
                 leader_tokens: HashSet::with_hasher(fixed_random_state()),
@@ -91,6 +95,27 @@ mod verif_barrier {
         assert!(!r.is_leader());
         kani::cover!(true);
         drop(s);
+        std::mem::forget(b);
+    }
+
+    /// C02.barrier.completing_arrival_is_choice_point [Kb: bound 1]: a wait() that completes its group (here the group of
+    /// one) releases tasks and bumps the epoch: not a blocking step, so exactly one choice point precedes it.
+    #[kani::proof]
+    #[kani::solver(minisat)]
+    #[kani::unwind(8)]
+    #[kani::stub(shuttle_engine::runtime::thread::continuation::switch, verif_switch)]
+    #[kani::stub(std::hash::RandomState::new, fixed_random_state)]
+    #[kani::stub(shuttle_engine::backtrace_enabled, stub_false)]
+    fn c02_barrier_completing_arrival() {
+        let mut store = new_store();
+        use_store(&mut store);
+        let st = state_with([TaskState::Runnable, BLOCKED, BLOCKED], 0, Rc::new(RefCell::new(SpecSched::new())));
+        let b = mk_n(false, 1);
+        let (r, cell) = run_in(st, || b.wait());
+        assert!(switches() == 1);
+        assert!(r.is_leader());
+        assert!(task_state(&cell, 0) == TaskState::Runnable && task_state(&cell, 1) == BLOCKED);
+        kani::cover!(true);
         std::mem::forget(b);
     }
 }
